@@ -186,8 +186,15 @@ var properties = map[string]*Property{
 			Params:     map[string]string{"prop": "C16"},
 			Quick:      Tier{Runs: 1600, BudgetS: 120},
 			Thorough:   Tier{Runs: 100000, BudgetS: 1500},
+		}, {
+			Name: "signer-time", Property: "C16", Pkg: "./internal/rules/mechanisms/finalizers", Test: "TestVerifC16Time",
+			Dirs:     []string{"internal/rules/mechanisms/finalizers", "internal/handler/management", "internal/keyholder"},
+			Files:    []string{"zz_verif_c16_test.go", "zz_verif_c16time_test.go"},
+			CPU1:     true,
+			Quick:    Tier{Runs: 1500, BudgetS: 60},
+			Thorough: Tier{Runs: 100000, BudgetS: 600},
 		}},
-		Rule: "one case = one seeded schedule of two token-issuing tasks (real jwt finalizer, with or without the real in-memory cache), one JWKS reader (real management handler) and one key-store writer performing 1-3 rewrites (1-3 entries of RSA/ECDSA fixture keys of every supported size, with/without certificate chain and X-Key-ID, optionally torn or invalid intermediate contents) each followed by watcher notifications dispatched as tasks like `go listener.OnChanged`; compiled with lock shims and yield points in jwt_signer.go / jwt_finalizer.go under the race detector. Non-trivial/distinct = distinct (task, yield-site) schedule signatures.",
+		Rule: "(signer-time: 1-2 key-store entries whose certificates expire after a seeded lifetime, 3-7 instants on the fake clock of a synctest bubble moving across those expiries without any reload; at each instant a freshly issued token must verify against the key set published at that instant, with exact iat/exp.) one case = one seeded schedule of two token-issuing tasks (real jwt finalizer, with or without the real in-memory cache), one JWKS reader (real management handler) and one key-store writer performing 1-3 rewrites (1-3 entries of RSA/ECDSA fixture keys of every supported size, with/without certificate chain and X-Key-ID, optionally torn or invalid intermediate contents) each followed by watcher notifications dispatched as tasks like `go listener.OnChanged`; compiled with lock shims and yield points in jwt_signer.go / jwt_finalizer.go under the race detector. Non-trivial/distinct = distinct (task, yield-site) schedule signatures.",
 		Real: []string{"jwtFinalizer, jwtSigner (locks shimmed, yields inserted)", "keystore (PEM parsing, chain building, key ids)", "keyholder.registry", "management JWKS handler", "memory.Cache or noop cache", "pkix certificate validation"},
 		Stub: []string{"fsnotify watcher -> simWatcher dispatching OnChanged as scheduler tasks", "disk: real files in a per-run scratch directory written step-wise by the simulator"},
 		Assumptions: []string{
@@ -196,7 +203,7 @@ var properties = map[string]*Property{
 			"in a third of the runs key ids are positional, i.e. they stay while the key material rotates",
 			"iat is compared with the wall clock around the call (+-2 s); it never enters the trace",
 		},
-		MustBePositive: []string{"signer-sched/probe:sign-overlapped-reload"},
+		MustBePositive: []string{"signer-sched/probe:sign-overlapped-reload", "signer-time/probe:clock-crossed-a-certificate-expiry"},
 	},
 	"C17": {
 		ID: "C17",
